@@ -152,58 +152,46 @@ func checkC14(w *World, r *Report) {
 	r.guard("R14.3", func() {
 		gc := w.Method("compile", "Compiler", "getConfig")
 		fd, _ := w.FuncDecl(gc)
-		inh := paramObj(p, fd, 1)
-		var own types.Object
-		rejects := false
-		ast.Inspect(fd.Body, func(x ast.Node) bool {
-			is, isIf := x.(*ast.IfStmt)
-			if !isIf || len(callsTo(p, is.Body, cerr)) != 1 {
-				return true
+		rejects, retOwn, retInh := false, false, false
+		if f := w.SSAFunc(gc); f != nil && len(f.Params) == 3 && len(ssaLoops(f)) == 0 {
+			sym := NewSym(w)
+			inhP := f.Params[2]
+			isOwn := func(v ssa.Value) bool {
+				c, ok := v.(*ssa.Call)
+				return ok && c.Call.IsInvoke() && c.Call.Method.Name() == "ArgBool"
 			}
-			// truth table over (inherited, own)
-			vars := map[types.Object]int{}
-			var leaves []types.Object
-			ast.Inspect(is.Cond, func(y ast.Node) bool {
-				if id, ok := y.(*ast.Ident); ok {
-					if o := p.TypesInfo.Uses[id]; o != nil {
-						if _, isV := o.(*types.Var); isV {
-							if _, seen := vars[o]; !seen {
-								vars[o] = len(leaves)
-								leaves = append(leaves, o)
-							}
+			classify := func(a *pcAtom) string {
+				if a.v == ssa.Value(inhP) {
+					return "inh"
+				}
+				if isOwn(a.v) {
+					return "own"
+				}
+				if a.op == token.EQL && a.x != nil {
+					for _, pair := range [][2]ssa.Value{{a.x, a.y}, {a.y, a.x}} {
+						if c, ok := pair[0].(*ssa.Call); ok && isNilConst(pair[1]) && c.Call.IsInvoke() && c.Call.Method.Name() == "ChildByType" {
+							return "nostmt"
 						}
 					}
 				}
-				return true
-			})
-			if len(leaves) != 2 {
-				return true
+				return ""
 			}
-			for _, o := range leaves {
-				if o != inh {
-					own = o
-				}
-			}
-			good := true
-			for a := 0; a < 2; a++ {
-				for b := 0; b < 2; b++ {
-					env := map[types.Object]bool{inh: a == 1, own: b == 1}
-					v, ok := evalBoolExpr(p, is.Cond, env)
-					if !ok || v != (a == 0 && b == 1) {
-						good = false
+			for _, b := range f.Blocks {
+				for _, in := range b.Instrs {
+					if c, ok := in.(ssa.CallInstruction); ok && c.Common().StaticCallee() != nil && c.Common().StaticCallee().Object() == types.Object(cerr) {
+						rejects = pcCompare(sym.PathCond(f.Blocks[0], b, nil), classify, func(env map[string]bool) bool { return !env["nostmt"] && !env["inh"] && env["own"] }) == ""
 					}
 				}
 			}
-			rejects = good
-			return true
-		})
-		retOwn, retInh := false, false
-		for _, ret := range returnsIn(fd.Body) {
-			if own != nil && objOfIdent(p, ret.Results[0]) == own {
-				retOwn = true
-			}
-			if objOfIdent(p, ret.Results[0]) == inh {
-				retInh = true
+			for _, row := range sym.retTable(f, 0) {
+				switch {
+				case isOwn(row.val):
+					retOwn = pcCompare(row.cond, classify, func(env map[string]bool) bool { return !env["nostmt"] }) == ""
+				case row.val == ssa.Value(inhP):
+					retInh = pcCompare(row.cond, classify, func(env map[string]bool) bool { return env["nostmt"] }) == ""
+				default:
+					retOwn, retInh = false, false
+				}
 			}
 		}
 		r.Check(rejects && retOwn && retInh, "R14.3", "getConfig", fd.Pos(), "error iff inherited=false ∧ own=true; returns own if present else inherited", "config true under config false is not (exactly) what is rejected, or config false is not inherited by descendants")
@@ -349,29 +337,35 @@ func checkC14(w *World, r *Report) {
 		bn := w.Method("compile", "Compiler", "BuildNode")
 		fd, _ := w.FuncDecl(bn)
 		oi := w.Method("compile", "Compiler", "overrideInherited")
-		var feat types.Object
-		first := false
-		if len(fd.Body.List) > 0 {
-			if as, ok := fd.Body.List[0].(*ast.AssignStmt); ok && len(as.Rhs) == 1 {
-				if ce, ok := as.Rhs[0].(*ast.CallExpr); ok && calleeOf(p, ce) == oi {
+		// every kind-specific builder called from BuildNode gets, as its inherited
+		// values, the very result of overrideInherited
+		first, all := false, true
+		n := 0
+		if bf := w.SSAFunc(bn); bf != nil {
+			for _, b := range bf.Blocks {
+				for _, in := range b.Instrs {
+					c, ok := in.(*ssa.Call)
+					if !ok || c.Call.StaticCallee() == nil {
+						continue
+					}
+					callee := c.Call.StaticCallee()
+					if co, ok := callee.Object().(*types.Func); !ok || !strings.HasPrefix(nm(callee), "Build") || co == bn || recvNamed(co) != "Compiler" {
+						continue
+					}
+					n++
+					if len(c.Call.Args) < 2 {
+						all = false
+						continue
+					}
+					src, ok := c.Call.Args[1].(*ssa.Call)
+					if !ok || src.Call.StaticCallee() == nil || src.Call.StaticCallee().Object() != types.Object(oi) {
+						all = false
+						continue
+					}
 					first = true
-					feat = objOfIdent(p, as.Lhs[0])
 				}
 			}
 		}
-		all := true
-		n := 0
-		ast.Inspect(fd.Body, func(x ast.Node) bool {
-			if ce, ok := x.(*ast.CallExpr); ok {
-				if c := calleeOf(p, ce); c != nil && strings.HasPrefix(c.Name(), "Build") && c != bn && recvNamed(c) == "Compiler" {
-					n++
-					if len(ce.Args) == 0 || objOfIdent(p, ce.Args[0]) != feat {
-						all = false
-					}
-				}
-			}
-			return true
-		})
 		r.Check(first && all && n >= 6, "R14.5", "BuildNode", fd.Pos(), fmt.Sprintf("overrideInherited first; its result passed to all %d builders", n), "a kind-specific builder receives the parent's inherited values instead of the node's own (config false / status would not propagate to descendants)")
 		ofd, _ := w.FuncDecl(oi)
 		gs, gc := w.Method("compile", "Compiler", "getStatus"), w.Method("compile", "Compiler", "getConfig")
